@@ -930,11 +930,22 @@ def _preprocess(ctx):
             dead = dead[:-1]
         for k in dead:
             ivar[k, :] = 0.0
+        # isolated zero-weight pixels (a cosmic ray, a bad column) away from the feature, in some of the live objects
+        holes = {}
+        for k in range(nobj):
+            if k not in dead and rng.random() < 0.5:
+                cand = [j for j in range(3, npix - pad - 3) if abs(loglam[j] - centers[k]) > 12 * width]
+                hs = sorted(rng.sample(cand, min(len(cand), rng.randrange(1, 4))))
+                hs = [j for i, j in enumerate(hs) if i == 0 or j - hs[i - 1] > 3]
+                for j in hs:
+                    ivar[k, j] = 0.0
+                holes[k] = hs
         lo = min(centers) - math.log10(1 + zs.max()) - 40 * dx
         hi = max(centers) - math.log10(1 + zs.min()) + 40 * dx
         newloglam = np.arange(lo, hi, dx)
         case = {'stream': 'preprocess', 'loglam': loglam.tolist(), 'z': zs.tolist(), 'centers': centers, 'width': width,
-                'newloglam': newloglam.tolist(), 'aesthetics': rng.choice(['mean', 'traditional', 'nothing']), 'dead': dead}
+                'newloglam': newloglam.tolist(), 'aesthetics': rng.choice(['mean', 'traditional', 'nothing']), 'dead': dead,
+                'holes': {str(k): v_ for k, v_ in holes.items()}}
         calls = []
         real_c1f = spec2d.combine1fiber
 
@@ -969,6 +980,17 @@ def _preprocess(ctx):
             ctx.disagree('preprocess:loop', dict(case, obj=bad), {'calls': len(impl)}, {'calls': len(m)})
         ctx.count('preprocess:calls-compared', len(impl))
         ctx.count('preprocess:dead-fibres=%d' % len(dead))
+        for k, hs in holes.items():
+            # "exactly 0 for every output pixel that does not lie between two adjacent good input pixels": the output pixels
+            # strictly between the neighbours of an isolated zero-weight input pixel (in the object's rest frame)
+            xs = loglam - np.log10(1.0 + zs[k])
+            for j in hs:
+                sel = (newloglam > xs[j - 1] + 1e-9) & (newloglam < xs[j + 1] - 1e-9)
+                ctx.count('preprocess:hole-pixels-judged', int(sel.sum()))
+                if sel.any() and (np.asarray(v[k])[sel] != 0).any():
+                    ctx.violate('preprocess:ivar-next-to-bad-pixel', 'object %d: output pixels next to the zero-weight input pixel %d have '
+                                'inverse variance %r (must be exactly 0)' % (k, j, np.asarray(v[k])[sel].tolist()), dict(case, obj=k, holes=hs))
+                    break
         for k in range(nobj):
             if k in dead:
                 continue
@@ -1020,6 +1042,9 @@ def _with_scale(rng, cases, frac):
             # 2**-30 and 2**-56: spectra in physical units (1e-9 .. 1e-17 per pixel); only small factors, because inverse variances
             # below 2**-23 count as 'no data' in the code
             c['tag']['scale'] = rng.choice([2.0, 0.5, 4.0, 0.25, 16.0, 0.0625, 2.0 ** -30, 2.0 ** -56, 2.0 ** -56] + ([3.0, 0.1, 10.0, 0.37] if well else []))
+            if c.get('ivar') is None and rng.random() < 0.6:
+                # without an inverse variance there is no 'no data' floor: raw counts (1e5 .. 1e9) are the same spectrum
+                c['tag']['scale'] = rng.choice([2.0 ** 17, 2.0 ** 20, 2.0 ** 30])
     return cases
 
 
